@@ -570,7 +570,7 @@ class CCodegen(Stringifier):
             end_cases.append(self.join_lines(self.format_line('break;'), self.format_line('}')))
         footer = self.format_line('}')
         self.depth += 1
-        bodies = self.visit_all(*o.bodies, o.else_body, **kwargs)
+        bodies = self.visit_all((*o.bodies, o.else_body), **kwargs)
         self.depth -= 1
         branches = [item for branch in zip(cases, bodies, end_cases) for item in branch]
         return self.join_lines(header, *branches, footer)
